@@ -308,6 +308,7 @@ pub mod proj {
                 "args": intrinsic.arguments().iter().map(expr).collect::<Vec<_>>(),
                 "written": opt_exprs(intrinsic.written_expressions()),
                 "read": opt_exprs(intrinsic.read_expressions()) }),
+            O::Nop { placeholder: Some(p) } => json!({ "k": "nop", "ph": op(p) }),
             O::Nop { .. } => json!({ "k": "nop" }),
         }
     }
